@@ -672,3 +672,83 @@ Section Den.
         split; [reflexivity|]. exists count. split; [reflexivity | right; repeat split; try lia; exact Hs].
   Qed.
 End Den.
+
+(* ================================================================================================ *)
+(** * The reference interpreter is compositional: [init e] denotes [ref_eval n e], by induction on the nesting *)
+Section Compose.
+  Variable LMAX : nat.
+  Notation init := (init Val.binop LMAX).
+  Notation init_arg := (init_arg Val.binop LMAX).
+  Notation DEN := (Den Val.binop LMAX).
+  Notation ADEN := (ADen Val.binop LMAX).
+
+  Definition sound (e : pexpr) (s : sem) (need : nat) : Prop :=
+    forall F, (need <= F)%nat -> exists p, init F e = Yield p /\ DEN F p s.
+
+  Lemma init_call F c args : init (S F) (ECall c args) = obind (mapM (init_arg F) args) (construct Val.binop LMAX F c).
+  Proof. reflexivity. Qed.
+  Lemma init_arg_ev F v : init_arg (S F) (EV v) = Yield (AV v).
+  Proof. reflexivity. Qed.
+  Lemma init_arg_ep F e : init_arg (S F) (EP e) = omap AP (init F e).
+  Proof. reflexivity. Qed.
+
+  (* an operand expression: a scalar (the constant stream) or a sub-expression *)
+  Lemma ref_arg_sound n a s (IH : forall e s, ref_eval n e = Some s -> sound e s (2 * n + 1)) :
+    ref_arg (ref_eval n) a = Some s ->
+    forall F, (2 * n + 1 <= F)%nat -> exists x, init_arg (S F) a = Yield x /\ ADEN (S F) x s.
+  Proof.
+    intros H F HF. destruct a as [v|e| | |]; try discriminate; cbn [ref_arg] in H.
+    - inversion H; subst. exists (AV v). split; [reflexivity | apply ADen_scalar].
+    - destruct (IH e s H F HF) as (p & Hi & Hd). exists (AP p). rewrite init_arg_ep, Hi. split; [reflexivity|].
+      apply ADen_pat. exact Hd.
+  Qed.
+
+  Theorem ref_eval_sound : forall n e s, ref_eval n e = Some s -> sound e s (2 * n + 1).
+  Proof.
+    induction n as [|n IH]; intros e s H; [discriminate|].
+    destruct e as [c args]. cbn [ref_eval] in H. intros F HF.
+    destruct F as [|F]; [lia|]. destruct F as [|F]; [lia|]. rewrite init_call.
+    destruct c; cbn [ref_call] in H; try discriminate.
+    - (* PConstant *)
+      destruct args as [|[v| | | |] [|]]; try discriminate. inversion H; subst.
+      exists (PConstant v). split; [reflexivity | apply constant_den].
+    - (* PSeries *)
+      destruct args as [|[[]| | | |] [|[[]| | | |] [|[[]| | | |] [|]]]]; try discriminate.
+      destruct (0 <=? z1) eqn:E; [|discriminate]. inversion H; subst.
+      eexists. split; [reflexivity|]. replace z1 with (Z.of_nat (Z.to_nat z1)) at 1 by lia. apply series_den.
+    - (* PRange *)
+      destruct args as [|[[]| | | |] [|[[]| | | |] [|[[]| | | |] [|]]]]; try discriminate.
+      destruct (z1 =? 0) eqn:E; [discriminate|]. inversion H; subst.
+      eexists. split; [reflexivity|]. apply range_den. lia.
+    - (* PGeom *)
+      destruct args as [|[[]| | | |] [|[[]| | | |] [|[[]| | | |] [|]]]]; try discriminate.
+      destruct (0 <=? z1) eqn:E; [|discriminate]. inversion H; subst.
+      eexists. split; [reflexivity|]. replace z1 with (Z.of_nat (Z.to_nat z1)) at 1 by lia. apply geom_den.
+    - (* PStutter *)
+      destruct args as [|[|e1| | |] [|[[]| | | |] [|]]]; try discriminate.
+      destruct (0 <? z) eqn:E; [|discriminate]. destruct (ref_eval n e1) as [s1|] eqn:E1; [|discriminate].
+      inversion H; subst. destruct (IH e1 s1 E1 F ltac:(lia)) as (p & Hi & Hd).
+      cbn [mapM]. rewrite init_arg_ep, Hi. exists (PStutter (AP p) (AV (VInt z)) (VInt 0) 0 (VInt 0)). split; [reflexivity|].
+      replace z with (Z.of_nat (Z.to_nat z)) at 1 by lia. apply stutter_den; [lia | exact Hd].
+    - (* PChanged *)
+      destruct args as [|[|e1| | |] [|]]; try discriminate.
+      destruct (ref_eval n e1) as [s1|] eqn:E1; [|discriminate].
+      destruct (IH e1 s1 E1 F ltac:(lia)) as (p & Hi & Hd).
+      assert (Hs : exists v0, at_ s1 0 = Yield v0 /\ s = sem_adj changed1 s1).
+      { destruct s1 as [[|x r]|g]; try discriminate; inversion H; subst; eexists; split; reflexivity. }
+      destruct Hs as (v0 & H0 & ->).
+      cbn [mapM]. rewrite init_arg_ep, Hi. cbn [omap obind construct].
+      pose proof (ADen_pat Val.binop LMAX F p s1 Hd) as Ha.
+      pose proof (ADen_step Val.binop LMAX (S F) (AP p) s1 0 Ha) as Hv. change (aafter Val.binop LMAX (S F) 0 (AP p)) with (AP p) in Hv.
+      rewrite Hv, H0. cbn [obind].
+      eexists. split; [reflexivity|]. apply changed_den; assumption.
+    - (* PSkipIf *)
+      destruct args as [|a [|b [|]]]; try discriminate.
+      destruct (ref_arg (ref_eval n) a) as [sa|] eqn:Ea; [|discriminate].
+      destruct (ref_arg (ref_eval n) b) as [sb|] eqn:Eb; [|discriminate]. inversion H; subst.
+      destruct (ref_arg_sound n a sa IH Ea F ltac:(lia)) as (xa & Hia & Hda).
+      destruct (ref_arg_sound n b sb IH Eb F ltac:(lia)) as (xb & Hib & Hdb).
+      cbn [mapM]. rewrite Hia, Hib. exists (PSkipIf xa xb). split; [reflexivity|].
+      apply skipif_den; assumption.
+  Qed.
+End Compose.
